@@ -136,6 +136,28 @@ func materialise(v goval) (val any, hasIdentity bool) {
 		default:
 			return nPtr(9), false
 		}
+	case "keyed":
+		type K string
+		if v.U == "namedstring" {
+			return map[K]string{"k": "v"}, false
+		}
+		return map[any]any{"k": "v", "l": 1}, false
+	case "shared":
+		p := &sharedT{Name: "c"}
+		n := 5
+		switch v.U {
+		case "struct":
+			return &struct{ A, B *sharedT }{p, p}, false
+		case "slice":
+			return &[]*int{&n, &n, &n}, false
+		case "map":
+			return &map[string]*sharedT{"a": p, "b": p}, false
+		default:
+			return &struct {
+				Inner []*sharedT
+				Name  string
+			}{[]*sharedT{p, p}, "n"}, false
+		}
 	case "embedded":
 		switch v.U {
 		case "value":
@@ -218,6 +240,10 @@ func materialise(v goval) (val any, hasIdentity bool) {
 			return map[int]string{}, false
 		case "mapintnil":
 			return map[int]string(nil), false
+		case "mapany":
+			return map[any]any{1: "a"}, false
+		case "mapanymixed":
+			return map[any]any{"a": 1, nil: 2}, false
 		case "chan-nil":
 			return (chan int)(nil), false
 		case "func-nil":
@@ -228,6 +254,8 @@ func materialise(v goval) (val any, hasIdentity bool) {
 	}
 	panic("unknown GoVal " + v.G)
 }
+
+type sharedT struct{ Name string }
 
 // structs with an embedded struct (by value, by pointer, of an unexported type)
 type Base struct{ Title string }
